@@ -36,6 +36,7 @@ type histStep struct {
 	State  string `json:"state"`  // setm: active | revoked | expired | inactive | missing
 	Node   string `json:"node"`   // route: other | none
 	Ms     int    `json:"ms"`     // sleep
+	Reuse  int    `json:"reuse"`  // open: 1 + index of an earlier open step whose CONNECTION sends this request too (0 = a new connection)
 }
 type histIn struct {
 	Mode    string     `json:"mode"`
@@ -70,6 +71,8 @@ type hOpen struct {
 	herr    error
 	finished bool
 	parked  bool
+	connIdx    int  // 1 + step index of the FIRST request sent on this connection (= this step unless the connection is re-used)
+	superseded bool // a later step sent another request on the same connection
 	fwdMap  string // mapping of the routing record at the moment THIS request was forwarded
 	waiting bool // inside handleLocalBridgeWait: the record said "on this node", it polls tunnelBridges for a bridge to appear
 	skip    int
@@ -146,7 +149,7 @@ func runHist(w *world, in histIn) (out histOut) {
 		}
 		for _, o := range opens {
 			if tc.GetStream() == o.c.Stream {
-				return o.step + 1
+				return o.connIdx
 			}
 		}
 		return 999 // not a connection of this history: the server's own source of a StartServerTunnel bridge
@@ -351,7 +354,7 @@ func runHist(w *world, in histIn) (out histOut) {
 			if fb := w.fx.Session.VerifForgetBridge(tunID[st.Tun]); fb != nil {
 				// the bridge ends the way it does in production: its ends go away, its own lifecycle goroutine cleans up
 				for _, o := range opens {
-					if k := o.step + 1; k == byStream(fb.GetSourceTunnelConn()) || k == byStream(fb.GetTargetTunnelConn()) {
+					if k := o.connIdx; k == byStream(fb.GetSourceTunnelConn()) || k == byStream(fb.GetTargetTunnelConn()) {
 						o.fc.Close()
 					}
 				}
@@ -367,15 +370,44 @@ func runHist(w *world, in histIn) (out histOut) {
 				delete(routeM, st.Tun)
 			}
 		case "open":
-			fc, c := w.nextConn()
-			o := &hOpen{step: i, fc: fc, c: c, tun: st.Tun, done: make(chan error, 1)}
+			var fc *fakeConn
+			var c *types.Connection
+			if st.Reuse > 0 {
+				// another TunnelOpen on the connection of an earlier step (whose requests so far were refused): same identity
+				var prev *hOpen
+				for _, po := range opens {
+					if po.step == st.Reuse-1 {
+						prev = po
+					}
+				}
+				if prev == nil || !prev.finished {
+					panic("generator: reuse of a connection that has no finished request")
+				}
+				fc, c = prev.fc, prev.c
+				prev.superseded = true
+			} else {
+				fc, c = w.nextConn()
+			}
+			o := &hOpen{step: i, fc: fc, c: c, tun: st.Tun, done: make(chan error, 1), connIdx: i + 1}
+			if st.Reuse > 0 {
+				for _, po := range opens {
+					if po.step == st.Reuse-1 {
+						o.connIdx = po.connIdx
+					}
+				}
+			}
 			opens = append(opens, o)
 			var me client
 			authed := false
-			switch st.Who {
-			case "half":
+			switch {
+			case st.Reuse > 0:
+				if cl, ok := clients[st.Who]; ok && st.Who != "half" {
+					me = cl
+					authed = true
+				}
+			case st.Who == "half":
 				w.authTunnelConn(fc, c, clients["half"], 1)
-			case "L", "T", "S", "X":
+			case st.Who == "L" || st.Who == "T" || st.Who == "S" || st.Who == "X":
 				me = clients[st.Who]
 				w.authTunnelConn(fc, c, me, 2)
 				authed = true
@@ -448,7 +480,7 @@ func runHist(w *world, in histIn) (out histOut) {
 					// acknowledged, nothing to attach to, still inside HandlePacket: it polls the routing table
 					held := false
 					if b := w.fx.Session.VerifBridge(tunID[st.Tun]); b != nil {
-						held = byStream(b.GetSourceTunnelConn()) == i+1 || byStream(b.GetTargetTunnelConn()) == i+1
+						held = byStream(b.GetSourceTunnelConn()) == o.connIdx || byStream(b.GetTargetTunnelConn()) == o.connIdx
 					}
 					if !held {
 						o.parked = true
@@ -477,10 +509,10 @@ func runHist(w *world, in histIn) (out histOut) {
 				so.Role = 8
 			default:
 				if b := w.fx.Session.VerifBridge(tunID[st.Tun]); b != nil {
-					if byStream(b.GetTargetTunnelConn()) == i+1 {
+					if byStream(b.GetTargetTunnelConn()) == o.connIdx {
 						so.Role = 2
 						checkAttach(i, o, idOf[b.GetMappingID()], "was attached as bridge target")
-					} else if byStream(b.GetSourceTunnelConn()) == i+1 {
+					} else if byStream(b.GetSourceTunnelConn()) == o.connIdx {
 						so.Role = 3
 						if o.herr != nil && strings.Contains(o.herr.Error(), "existing bridge") {
 							so.Role = 1
@@ -522,7 +554,7 @@ func runHist(w *world, in histIn) (out histOut) {
 		opens2 := opens
 		var src *hOpen
 		for _, o := range opens2 {
-			if o.step+1 == si {
+			if o.connIdx == si && !o.superseded {
 				src = o
 			}
 		}
@@ -531,7 +563,7 @@ func runHist(w *world, in histIn) (out histOut) {
 		for time.Now().Before(dl) {
 			got := false
 			for _, o := range opens {
-				if o != src && bytes.Contains(o.fc.output(), marker) {
+				if o != src && !o.superseded && bytes.Contains(o.fc.output(), marker) {
 					got = true
 				}
 			}
@@ -541,7 +573,7 @@ func runHist(w *world, in histIn) (out histOut) {
 			time.Sleep(300 * time.Microsecond)
 		}
 		for _, o := range opens {
-			if o != src && bytes.Contains(o.fc.output(), marker) {
+			if o != src && !o.superseded && bytes.Contains(o.fc.output(), marker) {
 				out.Readers = append(out.Readers, fmt.Sprintf("step%d@tun%d", o.step, k))
 				checkAttach(len(in.Steps), o, idOf[b.GetMappingID()], "read the bytes the tunnel's source wrote")
 			}
@@ -575,7 +607,7 @@ func runHist(w *world, in histIn) (out histOut) {
 			time.Sleep(300 * time.Microsecond)
 		}
 		for _, o := range opens {
-			if bytes.Contains(o.fc.output(), marker) && k >= 0 {
+			if !o.superseded && bytes.Contains(o.fc.output(), marker) && k >= 0 {
 				out.Readers = append(out.Readers, fmt.Sprintf("step%d@peer-tun%d", o.step, k))
 				// a forwarded request is judged against the record it was forwarded on (the harness's fake peer lets a history
 				// replace the record of a live tunnel on the SAME node, which a real node does not do while its bridge lives)
